@@ -238,6 +238,9 @@ def likelihood_check(r, v, trees, tag, case, sigp, with_roundtrip=True):
                     vals['repeat'] = float(v.get_likelihood(row[None, :].copy()))
                     if v2 is not None:
                         vals['after-roundtrip'] = float(v2.get_likelihood(row[None, :].copy()))
+                    ro_ = row[None, :].copy()
+                    ro_.flags.writeable = False
+                    vals['read-only array'] = float(v.get_likelihood(ro_))
                 else:
                     with seams.seam(poison=poison):
                         vals[f'np.empty={poison!r}'] = float(v.get_likelihood(row[None, :].copy()))
